@@ -912,7 +912,19 @@ func init() {
 			}
 			return ts
 		},
-		Custom: func(cc *CheckCtx) { cc.frameObligations() },
+		Custom: func(cc *CheckCtx) {
+			cc.frameObligations()
+			// every function that takes something out of a sync.Pool is verified with the pool item
+			// entering with arbitrary contents (ownership ghost state, arbitrary stale values): on the
+			// unchanged tree that is v2.0 ParseVector (task above); a new pool user is run here
+			for _, k := range cc.poolUsers() {
+				if k == "20.ParseVector" {
+					continue
+				}
+				pkg, fn := k[:2], k[3:]
+				cc.guard("gocvss"+pkg+"."+fn, func() { cc.runTask(Task{Pkg: pkg, Func: fn, Match: `/pool/|/safety/|/post/`, Timeout: 60}) })
+			}
+		},
 		Trusted: append(append([]string{}, trustedCommon...),
 			"T5 sync.Pool contract: Get returns New's result or a value previously Put, handed to one caller at a time",
 			"T10 Go memory model: a function whose writes go only to objects it owns (or that its caller handed to it exclusively) and whose reads go to arguments, the receiver and never-written package data cannot participate in a data race"),
